@@ -66,9 +66,12 @@ HARNESSES = {
     'add|insert': [[('add', 'a')], [('insert', 'b')]],
     'add|add': [[('add', 'a')], [('add', 'b')]],
     'raise|add': [[('add', 'r', 'raise')], [('add', 'b')]],
+    # a client that only clears the queue (the web Stop button) next to clients that queue
+    'add|add|clear': [[('add', 'a')], [('add', 'b')], [('clear',)]],
+    'add2|clear,add': [[('add', 'a'), ('add', 'b')], [('clear',), ('add', 'c')]],
 }
 QUICK = ['add3', 'add2|insert', 'add|add,insert', 'add|insert|spawn2', 'add,clear,add', 'raise,add|add',
-         'wait-stop|add|stop']
+         'wait-stop|add|stop', 'add|add|clear', 'add2|clear,add']
 
 
 def trace_filter(code):
@@ -388,6 +391,8 @@ def judge(hname, obs):
             return ('exception-escapes-controller-thread', '%s: %s' % (name, err))
     if obs.get('lock_timeouts'):
         return ('lock-acquire-timed-out', '%d timed-out acquisitions' % obs['lock_timeouts'])
+    if obs['client_errors']:
+        return ('queue-call-raises', repr(obs['client_errors'][0]))
     background = {op[1] for sc in scripts for op in sc if op[0] == 'spawn'}
     cleared_possible = any(op[0] == 'clear' for sc in scripts for op in sc)
     running = set()
